@@ -363,7 +363,7 @@ class Interp:
             return any(self.match_pattern(x, v, env) for x in p.patterns)
         if isinstance(p, ast.MatchClass):
             cname = ast.unparse(p.cls)
-            native = {'int': int, 'float': float, 'str': str, 'bool': bool, 'Fraction': __import__('fractions').Fraction}
+            native = {'int': int, 'float': float, 'str': str, 'bool': bool, 'Fraction': __import__('fractions').Fraction, 'list': list, 'tuple': tuple, 'dict': dict}
             if cname in native and not isinstance(v, Obj):
                 if cname == 'int' and isinstance(v, bool):
                     return not p.patterns and not p.kwd_attrs      # bool is an int, as in Python
